@@ -51,6 +51,11 @@ Clauses added by the parameter-coverage audit:
 * C07.als.defaults                nswp / e / lamb / info left out: <= 50 sweeps, documented stop, objective with the
                                   documented lamb = 0.001 not above F(Y0), core 1 optimal, shared default info harmless.
 * C07.als_func.update_sol / C07.als_func.defaults   the same for the functional version (a=-1, b=1, lamb=1e-3).
+* C07.als.info_stop_no_vld / C07.als_func.info_stop_no_vld   (gap closure) a threshold for a stop criterion that cannot be
+                                  evaluated: e_vld in {0, 1e-6, 1, 1e10} WITHOUT a complete validation set (none / only the
+                                  points / only the values; accuracy_on_data documents the sentinel -1): never stop 'e_vld',
+                                  sweep count, stop reason and tensor equal those of the call without e_vld (alone, with a
+                                  huge e, with a stopping callback, nswp = 0; constant-rank and adaptive mode).
 Every general clause takes an optional `opt` dictionary (see _problem / _als / _fproblem / _alsf): the same problem
 at another absolute scale (y -> c y, cores of Y0 -> c^(1/d), lamb -> c^(2(d-1)/d) lamb; c = 1e-12 .. 1e12), y or Y0
 alone scaled by 1e+-3 .. 1e+-12, nested-list / int8 / int32 / float32 argument forms, Fortran-ordered and
@@ -84,7 +89,8 @@ BOUNDS = ('als: d in 2..4 (5, 6; 8 thorough), n_k in 1..4 (12; 30 thorough), ran
           'cores, inert keyword arguments, log=True, default arguments; single-sample slice at every list position of '
           'lists with <= 14 samples for every mode (also weighted); adaptive mode: e_adap {1e-1,1e-3,1e-12}, r_add '
           '{0,1,2,1e4}, use_stab, allow_swap (3-5 modes of different size, 12 + 5 cases quick); update_sol; als_func: '
-          'd in 2..4, n in 2..4 Chebyshev modes or own basis functions (monomials / cosines), 30..60 points')
+          'd in 2..4, n in 2..4 Chebyshev modes or own basis functions (monomials / cosines), 30..60 points; e_vld in '
+          '{0,1e-6,1,1e10} without / with half a validation set (als: 5 shapes, both modes; als_func: 3 configurations)')
 
 ALS = ('als.als', 'als._optimize_core', 'als._lstsq', 'utils._info_appr')
 ALSF = ('als_func.als_func', 'als_func._optimize_core', 'utils._info_appr')
@@ -848,6 +854,76 @@ def info_stop(n, r, m, lamb, nswp, seed, adaptive, opt=None):
     return PASS
 
 
+@clause('C07.als.info_stop_no_vld', funcs=('als.als', 'utils._info_appr', 'data.accuracy_on_data'))
+def info_stop_no_vld(n, r, m, lamb, nswp, seed, adaptive, e_vld, vld, opt=None):
+    """A threshold for a stop criterion that CANNOT be evaluated: e_vld is given but there is no (complete) validation
+    set (vld = 'none': neither I_vld nor y_vld; 'I' / 'y': only one of the two - accuracy_on_data documents -1 then).
+    "The error on the validation dataset" does not exist, so the run can never end with stop 'e_vld': the executed
+    sweeps (callback calls), info['nswp'], info['stop'] and the returned tensor are those of the same call without
+    e_vld, for every e_vld >= 0, alone and together with e (huge / None), a stopping callback and nswp = 0."""
+    if adaptive:
+        I = _pairset(n, m, seed)
+        y = gen.rng('C07is', seed).normal(size=len(I))
+        Y0 = gen.tt(n, r, seed, 'gauss')
+        kw0 = dict(r=r + 1, lamb=lamb)
+    else:
+        I, y, _, Y0 = _problem(n, r, m, lamb, False, seed)
+        kw0 = dict(lamb=lamb)
+    gv = gen.rng('C07vld', seed)
+    I_vld = np.stack([gv.integers(0, k, size=7) for k in n], axis=1)
+    y_vld = gv.normal(size=7)
+    part = {'none': {}, 'I': dict(I_vld=I_vld), 'y': dict(y_vld=y_vld)}[vld]
+
+    def run(cb_at=None, **kw):
+        calls, info = [], {}
+
+        def cb(Y, info_, opts):
+            calls.append(info_['nswp'])
+            return True if cb_at is not None and info_['nswp'] == cb_at else None
+
+        Y = _als(opt, I, y, Y0, info=info, cb=cb, **kw0, **kw)
+        return Y, info, calls
+
+    def same(tag, kw, cb_at=None):
+        """The call with e_vld (and the partial validation data) against the same call without them."""
+        Yr, ir, cr = run(cb_at=cb_at, **kw)
+        Yv, iv, cv = run(cb_at=cb_at, e_vld=e_vld, **part, **kw)
+        if iv.get('stop') == 'e_vld':
+            return (f"{tag}: stop 'e_vld' after {iv.get('nswp')} sweeps although there is no validation error "
+                    f"(e_vld = {e_vld}, validation data: {vld}); without e_vld: {ir.get('stop')!r} after {ir.get('nswp')}")
+        if iv.get('nswp') != len(cv):
+            return f"{tag}: info['nswp'] {iv.get('nswp')} but {len(cv)} executed sweeps"
+        if (iv.get('stop'), iv.get('nswp')) != (ir.get('stop'), ir.get('nswp')):
+            return (f"{tag}: stop {iv.get('stop')!r} after {iv.get('nswp')} sweeps with the inert e_vld = {e_vld} "
+                    f"(validation data: {vld}), {ir.get('stop')!r} after {ir.get('nswp')} without")
+        if [G.shape for G in Yv] != [G.shape for G in Yr] or any(not np.array_equal(P, Q) for P, Q in zip(Yv, Yr)):
+            return f'{tag}: the returned tensor differs from the one of the same call without e_vld'
+        return None
+
+    msg = same(f'nswp={nswp}, e=None', dict(nswp=nswp, e=None))
+    if msg:
+        return FAIL(msg)
+    Y, info, calls = run(nswp=nswp, e=None, e_vld=e_vld, **part)
+    if info['stop'] != 'nswp' or info['nswp'] != nswp or len(calls) != nswp:
+        return FAIL(f"nswp={nswp}, e=None, e_vld={e_vld} without validation data ({vld}): stop {info['stop']!r}, "
+                    f"info['nswp'] {info['nswp']}, {len(calls)} executed sweeps; expected 'nswp' after {nswp}")
+    for tag, kw, cb_at in (('huge e', dict(nswp=nswp, e=1e+10), None), ('nswp=0', dict(nswp=0, e=None), None),
+                           ('callback True at sweep 1', dict(nswp=nswp, e=None), 1),
+                           (f'callback True at sweep {nswp}', dict(nswp=nswp + 1, e=None), nswp)):
+        msg = same(tag, kw, cb_at)
+        if msg:
+            return FAIL(msg)
+    Y, info, calls = run(nswp=nswp, e=1e+10, e_vld=e_vld, **part)
+    if info['stop'] != 'e' or info['nswp'] != 1:
+        return FAIL(f"huge e together with e_vld={e_vld} without validation data: stop {info['stop']!r} after {info['nswp']}")
+    if nswp >= 2:
+        Y, info, calls = run(cb_at=nswp - 1, nswp=nswp, e=None, e_vld=e_vld, **part)
+        if info['stop'] != 'cb' or info['nswp'] != nswp - 1 or len(calls) != nswp - 1:
+            return FAIL(f"callback True at sweep {nswp - 1} with e_vld={e_vld} without validation data: stop {info['stop']!r} "
+                        f"after {info['nswp']} ({len(calls)} executed sweeps)")
+    return PASS
+
+
 # ----------------------------------------------------------------------------------------------- als_func
 
 def _design(X, a, b, nmodes):
@@ -1055,6 +1131,33 @@ def f_info_stop(d, nm, r, m, lamb, nswp, seed, box):
         msg = same(A, 1, 'nswp=0')
         if msg:
             return FAIL(msg)
+    return PASS
+
+
+@clause('C07.als_func.info_stop_no_vld', funcs=ALSF)
+def f_info_stop_no_vld(d, nm, r, m, lamb, nswp, seed, box, e_vld, vld):
+    """als_func with a threshold e_vld but without a (complete) validation set (vld = 'none', 'X': only X_vld, 'y': only
+    y_vld): no validation error exists, so the stop reason is never 'e_vld'; info['nswp'] / info['stop'] and the
+    returned tensor are those of the same call without e_vld (nswp sweeps / one sweep with e=None, one sweep with a
+    huge e)."""
+    X, y, A0, H = _fproblem(d, nm, r, m, seed, box)
+    g = gen.rng('C07fv', seed)
+    Xv = g.uniform(box[0] + 1e-9 * (box[1] - box[0]), box[1] - 1e-9 * (box[1] - box[0]), size=(6, d))
+    yv = g.normal(size=6)
+    part = {'none': {}, 'X': dict(X_vld=Xv), 'y': dict(y_vld=yv)}[vld]
+    for tag, kw, stop, sweeps in ((f'nswp={nswp}, e=None', dict(nswp=nswp, e=None), 'nswp', nswp),
+                                  ('nswp=1, e=None', dict(nswp=1, e=None), 'nswp', 1),
+                                  ('huge e', dict(nswp=nswp, e=1e+10), 'e', 1)):
+        ir, iv = {}, {}
+        Ar = teneva.als_func(X, y, A0, box[0], box[1], info=ir, lamb=lamb, **kw)
+        Av = teneva.als_func(X, y, A0, box[0], box[1], info=iv, lamb=lamb, e_vld=e_vld, **part, **kw)
+        if (ir.get('stop'), ir.get('nswp')) != (stop, sweeps):
+            return FAIL(f"{tag} (no e_vld): stop {ir.get('stop')!r} after {ir.get('nswp')}; expected {stop!r} after {sweeps}")
+        if (iv.get('stop'), iv.get('nswp')) != (stop, sweeps):
+            return FAIL(f"{tag}, e_vld={e_vld} without validation data ({vld}): stop {iv.get('stop')!r} after "
+                        f"{iv.get('nswp')} sweeps; expected {stop!r} after {sweeps}")
+        if [G.shape for G in Av] != [G.shape for G in Ar] or any(not np.array_equal(P, Q) for P, Q in zip(Av, Ar)):
+            return FAIL(f'{tag}: the returned tensor differs from the one of the same call without e_vld')
     return PASS
 
 
@@ -1322,6 +1425,25 @@ def cases(tier, seed):
         yield 'C07.als_func.update_sol', dict(d=d, nm=nm, r=r, m=40, lamb=LAMBS[1 + k % 5], nswp=3, seed=sd(),
                                               box=[-1.0, 1.0])
         yield 'C07.als_func.defaults', dict(d=d, nm=nm, r=r, m=40, seed=sd())
+    # (M) a threshold for a stop criterion that cannot be evaluated: e_vld without a (complete) validation set
+    evs = (0.0, 1e-6, 1.0, 1e+10)
+    for n in ([2, 2], [3, 4], [2, 3, 2], [4, 1, 3], [2, 2, 2, 2]) + (([1, 3], [3, 3, 3], [3, 2, 1, 3]) if big else ()):
+        for vld in ('none', 'I', 'y'):
+            for ad in ((False, True) if len(n) >= 3 else (False,)):
+                for e_vld in (evs if big else (evs[k % 4], evs[(k + 2) % 4]) if vld == 'none' else (evs[(k + 1) % 4],)):
+                    k += 1
+                    p = dict(n=n, r=2, m=int(g2.integers(5, 40)), lamb=LAMBS[k % 6], nswp=2 + k % 3, seed=sd(), adaptive=ad,
+                             e_vld=e_vld, vld=vld)
+                    if k % 5 == 0:
+                        p['opt'] = {'form': 'list'}
+                    yield 'C07.als.info_stop_no_vld', p
+    for (d, nm, r) in ((2, 3, 2), (3, 3, 2), (3, 2, 3)) + (((4, 3, 2), (2, 4, 1)) if big else ()):
+        for vld in ('none', 'X', 'y'):
+            for e_vld in (evs if big else (evs[k % 4], evs[(k + 2) % 4]) if vld == 'none' else (evs[(k + 1) % 4],)):
+                k += 1
+                yield 'C07.als_func.info_stop_no_vld', dict(d=d, nm=nm, r=r, m=int(g2.integers(30, 61)), lamb=LAMBS[1 + k % 5],
+                                                            nswp=2 + k % 3, seed=sd(), box=[[-1.0, 1.0], [0.0, 0.5]][k % 2],
+                                                            e_vld=e_vld, vld=vld)
     # functional version
     k = 0
     for d in (2, 3, 4):
